@@ -301,6 +301,11 @@ func TestC02(t *testing.T) {
 	m.Assume("the sealed messages come from h/ref/aead8439 (AEAD) and are confirmed authentic by an unmodified Open on each path before tampering; NaCl boxes are sealed by the package itself and cross-checked against libsodium " + sodiumaead.Version())
 	m.Assume("Curve25519 ignores bit 255 of a public key and clamps bits 0,1,2,254,255 of a private key: flips of those bits give an equivalent key and are not presented as modifications")
 
+	if mon.RaceBuild {
+		// -race build: only the shared-value concurrency stream
+		c02Concurrent(m, paths())
+		return
+	}
 	ps := paths()
 	ctA := guard.New(8192)
 	adA := guard.New(c02MaxAD + 64)
